@@ -228,7 +228,7 @@ theorem tnRun_ok {fields : List FieldSpec} {instrs : List (CInstr α)} {tor bor 
 end Anatomy
 
 section State
-variable {α : Type} [CommRing α] [DecidableEq α]
+variable {α : Type} [CommSemiring α] [DecidableEq α]
 
 /-- the state of the loop at the end of `circuitNet`, for a circuit whose matrix exists -/
 theorem circuit_state (fields : List FieldSpec) (instrs : List (CInstr α)) (tn : TN α)
